@@ -404,31 +404,116 @@ def inst_tokens(o, form):
     return f"lit {g} {1 if o.strict else 0} {int(o.max_vehicles)} {int(o.max_sequence_length)} {fl([F(c) for c in o.vehicle_cost])}"
 
 
+# ------------------------------------------------------------------ enumeration order
+# No property fixes the ORDER in which a formulation numbers its decision variables (C18 asks for a bijection between indices and
+# admissible tuples, the others speak about vectors over "the variables").  The Lean model enumerates in the order of the pinned code;
+# when the implementation numbers the same tuples differently, model output is relabelled into the implementation's numbering before
+# it is compared (and vectors handed to the model are relabelled the other way).  Different tuple SETS are not relabelled: the plain
+# comparison then reports the disagreement.
+ORDER_STATS = {"same": 0, "relabelled": 0, "different-sets": 0}
+_ORDER_CACHE = {}
+
+
+def order_of(ivars, mvars):
+    """None if the two lists are equal or are not permutations of one another; else to_model with to_model[k_impl] = k_model"""
+    if ivars is None or mvars is None or list(ivars) == list(mvars):
+        ORDER_STATS["same"] += 1
+        return None
+    pos = {u: k for k, u in enumerate(mvars)}
+    if len(pos) != len(mvars) or len(ivars) != len(mvars) or len(set(ivars)) != len(ivars) or any(u not in pos for u in ivars):
+        ORDER_STATS["different-sets"] += 1
+        return None
+    ORDER_STATS["relabelled"] += 1
+    return [pos[u] for u in ivars]
+
+
+def enumerated(o):
+    return bool(getattr(o, "variables_enumerated", False))
+
+
+def var_order(drv, o, form):
+    """to_model (see order_of) for the real object's CURRENT instance state; None for the path-based class (routes are numbered as
+    stored) and for an object that has not enumerated its variables (asking would change its caches)"""
+    if form not in ("arc", "seq") or not enumerated(o):
+        return None
+    iv = impl_vars(o, form)
+    key = (form, inst_tokens(o, form), tuple(iv))
+    if key not in _ORDER_CACHE:
+        if len(_ORDER_CACHE) > 64:
+            _ORDER_CACHE.clear()
+        rep = drv.ask(f"{form}.data {inst_tokens(o, form)}")
+        head, groups = core.split_reply(rep)
+        if head != "ok":
+            return None
+        tk = MU.Toks(groups[0])
+        if form == "arc":
+            mv = tk.lst(lambda: (tk.nat(), Fraction(tk.tok()), tk.nat(), Fraction(tk.tok())))
+        else:
+            mv = tk.lst(lambda: (tk.nat(), tk.nat(), tk.nat()))
+        _ORDER_CACHE[key] = order_of(iv, mv)
+    return _ORDER_CACHE[key]
+
+
+def vec_to_impl(tm, v):
+    """a vector over the model's variables, relabelled into the implementation's numbering"""
+    return v if tm is None or len(v) != len(tm) else [v[tm[k]] for k in range(len(tm))]
+
+
+def vec_to_model(tm, x):
+    """a vector over the implementation's variables, relabelled into the model's numbering"""
+    if tm is None or len(x) != len(tm):
+        return x
+    y = [0] * len(x)
+    for k, km in enumerate(tm):
+        y[km] = x[k]
+    return y
+
+
+def mat_to_impl(tm, M):
+    return M if tm is None or len(M) != len(tm) else [[M[tm[a]][tm[b]] for b in range(len(tm))] for a in range(len(tm))]
+
+
+def _relabel_mp(tm, mp):
+    inv = [0] * len(tm)
+    for k, km in enumerate(tm):
+        inv[km] = k
+    return dict(mp, A=[(i, inv[j], v) for (i, j, v) in mp["A"]], R=[(inv[i], inv[j]) for (i, j) in mp["R"]],
+                c=vec_to_impl(tm, mp["c"]), Q=[(inv[i], inv[j], v) for (i, j, v) in mp["Q"]])
+
+
 def model_data(drv, o, form):
-    """(status, dict(vars, suff, mp))"""
+    """(status, dict(vars, suff, mp)) — in the implementation's variable numbering (see "enumeration order" above)"""
     rep = drv.ask(f"{form}.data {inst_tokens(o, form)}")
     head, groups = core.split_reply(rep)
     if head != "ok":
         return head, None
-    if form == "arc":
-        tk = MU.Toks(groups[0])
-        vars_ = tk.lst(lambda: (tk.nat(), Fraction(tk.tok()), tk.nat(), Fraction(tk.tok())))
-        return "ok", dict(vars=vars_, T=[Fraction(t) for t in groups[1][1:]], suff=Fraction(groups[2][0]), mp=VU.parse_mp(groups, 3))
     if form == "path":
         return "ok", dict(vars=None, suff=Fraction(groups[0][0]), mp=VU.parse_mp(groups, 1))
     tk = MU.Toks(groups[0])
-    vars_ = tk.lst(lambda: (tk.nat(), tk.nat(), tk.nat()))
-    return "ok", dict(vars=vars_, suff=Fraction(groups[2][0]), fixed=groups[3], mp=VU.parse_mp(groups, 4))
+    if form == "arc":
+        vars_ = tk.lst(lambda: (tk.nat(), Fraction(tk.tok()), tk.nat(), Fraction(tk.tok())))
+        d = dict(vars=vars_, T=[Fraction(t) for t in groups[1][1:]], suff=Fraction(groups[2][0]), mp=VU.parse_mp(groups, 3))
+    else:
+        vars_ = tk.lst(lambda: (tk.nat(), tk.nat(), tk.nat()))
+        d = dict(vars=vars_, suff=Fraction(groups[2][0]), fixed=groups[3], mp=VU.parse_mp(groups, 4))
+    tm = order_of(impl_vars(o, form), vars_) if enumerated(o) else None
+    d["model_order_vars"] = vars_
+    if tm is not None and d["mp"]["n"] == len(tm):
+        d["vars"] = [vars_[km] for km in tm]
+        d["mp"] = _relabel_mp(tm, d["mp"])
+    d["order"] = tm
+    return "ok", d
 
 
 def model_qubo(drv, o, form, feas, rho):
+    """the model's QUBO, in the implementation's variable numbering"""
     rep = drv.ask(f"{form}.qubo {inst_tokens(o, form)} {1 if feas else 0} {'none' if rho is None else fs(rho)}")
     head, groups = core.split_reply(rep)
     if head != "ok":
         return head, None
     n = int(groups[0][0])
     Q = [[Fraction(t) for t in groups[1][i * n:(i + 1) * n]] for i in range(n)]
-    return "ok", dict(n=n, rho=Fraction(groups[0][1]), Q=Q, k=Fraction(groups[2][0]))
+    return "ok", dict(n=n, rho=Fraction(groups[0][1]), Q=mat_to_impl(var_order(drv, o, form), Q), k=Fraction(groups[2][0]))
 
 
 def impl_vars(o, form):
